@@ -53,7 +53,8 @@ def case(draw):
                 ch0.pop("drop_spec", None)
                 ch0["drop"] = [[ch0["stretch"][0][0] % (len(ch0["seq"]) - 1), draw(st.sampled_from(["O", "O", "C"]))]]
     ff = draw(st.sampled_from(strat.FFS))
-    return dict(part="e2e", desc=desc, ff=ff, opts=list(mode) + e2e.neutral_opts(draw, ff, mode), wild=wild)
+    tit = e2e.draw_titration(draw, desc, 4) if mode not in (["--clean"], ["--assign-only"]) else None
+    return dict(part="e2e", desc=desc, ff=ff, opts=list(mode) + e2e.neutral_opts(draw, ff, mode), wild=wild, tit=tit)
 
 
 WAT = topo.RES["WAT"]["atoms"] if "WAT" in topo.RES else None
@@ -79,6 +80,9 @@ def check(case):
             continue
         out = {k: np.array(a.coords) for k, a in entry["atoms"].items()}
         added = [k for k in out if k not in names]
+        if case.get("tit") and g[0] == "chain":
+            # titration route: the input's hydrogens are stripped and every hydrogen of the result is rebuilt
+            added += [k for k in out if not topo.heavy(k) and k not in added]
         if g[0] == "chain" and any(k in ("OD1", "OD2", "OE1", "OE2") for k in added):
             # carboxyl name exchange: an oxygen "not in the input" may be the supplied one under the
             # other name - added atoms are those whose POSITION was not supplied
